@@ -343,6 +343,10 @@ class P:
         if t == K("BEGIN"):
             self.eat(); body = self.stmts((K("END"),)); self.eat(K("END")); self.eat(S(";"))
             return ("begin", body)
+        if t == K("ALIAS"):
+            self.eat(); n = self.ident(); self.eat(K("FOR")); ref = self.expr_until(S(";")); self.eat(S(";"))
+            body = self.stmts((K("END_ALIAS"),)); self.eat(K("END_ALIAS")); self.eat(S(";"))
+            return ("alias", n, ref, body)
         if t == K("RETURN"):
             self.eat(); v = None
             if self.opt(S("(")):
@@ -423,7 +427,7 @@ NONTERMINALS = {
     "action_body": "decl:function", "action_body_item": "algo:nested-declaration", "action_body_item_rep": "algo:nested-declaration",
     "actual_parameters": "funcall", "aggregate_init_body": "aggr:init", "aggregate_init_element": "aggr:init",
     "aggregate_initializer": "aggr:init", "aggregate_type": "param:aggregate", "aggregation_type": "type:LIST",
-    "alias_push_scope": X_("ALIAS aborts check-express and exppp (C06)"), "alias_statement": X_("ALIAS aborts check-express and exppp (C06)"),
+    "alias_push_scope": "stmt:alias", "alias_statement": "stmt:alias",
     "array_type": "type:ARRAY", "assignable": "stmt:assignment", "assignment_statement": "stmt:assignment",
     "attribute_decl": "entity:attr", "attribute_decl_list": "entity:attr-list", "attribute_type": "entity:attr",
     "bag_type": "type:BAG", "basic_type": "type:precision", "block_list": X_("obsolete: no rule reaches it"), "block_member": X_("obsolete: no rule reaches it"),
